@@ -426,13 +426,24 @@ type wireItem struct {
 
 // checkFanout evaluates the C11 oracles over the wire logs.
 func (e *env) checkFanout(stable, churn []*link, items [][]fanItem) {
+	e.checkFanoutEx(stable, nil, churn, items)
+}
+
+// checkFanoutEx: stable links must receive everything exactly once; lossy links (stalled or
+// failed) are checked for at-most-once, order and isolation only.
+func (e *env) checkFanoutEx(stable, lossy, churn []*link, items [][]fanItem) {
+	isLossy := map[*link]bool{}
+	for _, l := range lossy {
+		isLossy[l] = true
+	}
+	stable = append(append([]*link(nil), stable...), lossy...)
 	parse := func(l *link) ([]wireItem, bool) {
 		frames, _, rest, err := ref.ParseStream(l.wire())
 		if err != nil {
 			dsim.Failf("whole-frames", "%s: the outgoing byte stream is not a clean concatenation of frames: %v", l.name, err)
 			return nil, false
 		}
-		if len(rest) != 0 && !l.peerClosed {
+		if len(rest) != 0 && !l.peerClosed && !isLossy[l] {
 			dsim.Failf("whole-frames", "%s: %d trailing bytes that are not a whole frame at quiescence: %s", l.name, len(rest), hexs(rest))
 			return nil, false
 		}
@@ -512,6 +523,9 @@ func (e *env) checkFanout(stable, churn []*link, items [][]fanItem) {
 			}
 		}
 		for wi := range items {
+			if isLossy[l] {
+				break
+			}
 			for _, it := range items[wi] {
 				if it.dests[l] && it.sub.accepted && seen[[2]uint32{uint32(wi + 1), it.sub.idx}] != 1 {
 					dsim.Failf("exactly-once", "%s: item w%d#%d (%s %s) accepted at t=%v did not reach this open, healthy channel by quiescence (backlog was kept below the queue bound)",
